@@ -272,7 +272,7 @@ def defs : Defs
 
 /-- fuel that `parse` hands to `exec`; far above what any terminating run needs
 (each loop iteration and each nesting level costs a bounded number of fuel units) -/
-def parseFuel (input : List Char) : Nat := 64 * input.length + 4096
+def parseFuel (input : List Char) : Nat := 128 * input.length + 4096
 
 structure ParseResult where
   tree : Tree
@@ -284,12 +284,13 @@ inductive ParseOut where
   | panic (why : Why)
   | outOfFuel
 
-/-- `syntax::parse` -/
+/-- `syntax::parse`; `ParserBase::finish` = the error epilogue `PState.finish` (which leaves the
+builder alone) followed by the builder's `finish` -/
 def parse (input : List Char) : ParseOut :=
   match exec defs Tables.recoverTokens (parseFuel input) (call .source_file) (PState.init input) with
   | .ok s =>
     match s.b.cur, s.b.parents with
-    | [t], [] => .ok { tree := t, errors := s.errors.reverse, steps := s.steps }
+    | [t], [] => .ok { tree := t, errors := s.finish.errors.reverse, steps := s.steps }
     | _, _ => .panic .rootCount
   | .panic w => .panic w
   | .outOfFuel => .outOfFuel
